@@ -19,6 +19,7 @@ from collections import Counter
 
 from .source import Source, splitmix64
 
+INJECT_RANGE = 256
 GRID = 1.0 / 1024.0  # all simulated instants are multiples of 2**-10 s (exact in binary floating point)
 
 
@@ -328,6 +329,10 @@ class Sim:
         self.nontrivial = False
         self.finished = False
         self.outcome = None
+        # choice 0 of every run: where a swept fault is injected (0 = nowhere); workloads that do
+        # not sweep ignore it.  Keeping it at a fixed position lets a sweep patch it (DESIGN 2.5).
+        self.inject_choice = source.draw(INJECT_RANGE, "inject-at")
+        self.extra = {}
         # per-run knobs (swarm): drawn first so that they sit at the front of the choice list
         self.hash_salt = source.draw(8, "hash-salt")
         self.fire_weights = self.FIRE_TABLES[source.draw(len(self.FIRE_TABLES), "fire-table")]
